@@ -316,7 +316,8 @@ CHECKS = {
         test="TestC25", level="exploration", shards=16,
         tiers=dict(quick=dict(checks=40, timeout=600), thorough=dict(checks=3000, timeout=3000)),
         rule="rapid write histories on a master instance (1-4 buckets, fixed and variable, all timeframes and wire types, "
-             "1-6 requests naming 1-2 buckets, possibly one fixed and one variable in the same transaction group); every "
+             "1-6 requests per writer naming 1-2 buckets, possibly one fixed and one variable in the same transaction group; one case "
+             "in three: 2-3 concurrent writers with the background WAL writer so that a flushed group carries several requests); every "
              "transaction group the master's ReplicationSender receives is applied to a second instance by the production "
              "replayer (replication.NewReplayer(executor.ParseTGData, writer.WriteCSM, root)); oracle: every bucket's "
              "all-time (and a ranged) query returns the same rows on both, variable-length times at most one resolution "
